@@ -152,6 +152,7 @@ pub fn fn1(name: &str) -> impl Fn(Val) -> Val + Clone + Send + Sync + 'static {
     ("add", Val::Int(i)) => Val::Int(i.wrapping_add(k)),
     ("mul", Val::Int(i)) => Val::Int(i.wrapping_mul(k)),
     ("mod", Val::Int(i)) => Val::Int(if k == 0 { *i } else { i.rem_euclid(k) }),
+    ("div", Val::Int(i)) => Val::Int(if k == 0 { *i } else { i.div_euclid(k) }),
     ("const", _) => Val::Int(k),
     ("neg", Val::Int(i)) => Val::Int(-i),
     ("fst", Val::Pair(a, _)) => (**a).clone(),
